@@ -579,6 +579,10 @@ class ExcelCompiler:
                         walk_precedents(child_cell)
                     else:
                         # trim this cell, now we will need only its value
+                        if child_cell.formula and child_cell.needs_calc:
+                            # a formula that was never evaluated (or was reset)
+                            # has no value to keep yet
+                            self.evaluate(child_address)
                         needed_cells.add(child_address)
                         child_cell.formula = None
                         self.log.debug(f'Trimming {child_address}')
